@@ -85,4 +85,6 @@ class Reform(TaxBenefitSystem):
             )
         self.parameters = reform_parameters
         self._parameters_at_instant_cache = {}
+        # Views memoised by `get_parameters_at_instant` describe the former tree.
+        TaxBenefitSystem.get_parameters_at_instant.cache_clear()
         return None
